@@ -133,10 +133,10 @@ def text_shard(arg) -> core.Part:
                     p.sig((mode, ns, ktn, _shape(s)))
                 if got != exp:
                     kind = "raises" if isinstance(got, tuple) else "text"
-                    p.violation(f"C11/{kind}/{mode}/{cfg_label(ns, ktn)}/{_shape(s)[-12:]}", {
+                    p.violation(f"C11/{kind}/{mode}/{cfg_label(ns, ktn)}", {
                         "msg": f"source {s!r} newline_sequence={ns!r} keep_trailing_newline={ktn} ({mode}): "
                                f"got {got!r}, expected {exp!r}",
-                        "source": s, "got": repr(got), "expected": exp,
+                        "source": s, "got": repr(got), "expected": exp, "size": len(s),
                         "script": "import jinja2\n"
                                   f"env = jinja2.Environment(newline_sequence={ns!r}, keep_trailing_newline={ktn}, **{extra or {}!r})\n"
                                   f"print(repr(env.from_string({s!r}).render()))\n"
@@ -253,7 +253,7 @@ def body_shard(arg) -> core.Part:
                         k2 = "raises" if isinstance(got, tuple) else "output"
                         p.violation(f"C11/{kind}-body/{k2}/{'|'.join(mods)}/trim={int(trim)},lstrip={int(lstrip)}", {
                             "msg": f"source {src!r} trim_blocks={trim} lstrip_blocks={lstrip}: got {got!r}, expected {exp!r}",
-                            "source": src, "body": body, "got": repr(got), "expected": exp,
+                            "source": src, "body": body, "got": repr(got), "expected": exp, "size": len(src),
                             "script": "import jinja2\n"
                                       f"env = jinja2.Environment(trim_blocks={trim}, lstrip_blocks={lstrip})\n"
                                       f"print(repr(env.from_string({src!r}).render()))\n"
@@ -300,6 +300,7 @@ def run(ctx: core.Ctx):
     ctx.pmap(text_shard, shards)
     bshards = [((), [0, 1], full_upto)] + [((x, y), list(range(2, k_body + 1)), full_upto) for x in FRAGS for y in FRAGS]
     ctx.pmap(body_shard, bshards)
+    ctx.viol.sort(key=lambda v: (v[0], v[1].get("size", 0), v[1].get("msg", "")))  # smallest input first per signature
     ctx.cov["bounds"] = {
         "a_render_all_6_configs_max_symbols": k_render,
         "a_parse_level_all_6_configs_symbols": k_parse,
